@@ -516,4 +516,29 @@ C07Abort(pre, step, post, out) ==
      \cup Tag(syncAbort => rearms = exitedAfter, "rearmed")
      \cup Tag(syncAbort => post.status = "running", "still_running")
 
+--------------------------------------------------------------------------
+(* C14 -- lifecycle                                                           *)
+
+AllowedStatus == {<<"uninitialized", "running">>, <<"running", "done">>, <<"running", "error">>,
+                  <<"running", "stopped">>, <<"done", "stopped">>, <<"error", "stopped">>,
+                  <<"uninitialized", "done">>, <<"uninitialized", "error">>}   \* start() may complete/fail the machine at once
+
+C14(pre, step, post, out) ==
+  LET quiet == \A i \in 1..Len(out) : out[i].k \notin {"act", "ax", "on_transition", "event", "subscriber", "sched", "arm", "invoke"}
+  IN Tag(pre.status = post.status \/ <<pre.status, post.status>> \in AllowedStatus
+         \/ (step.op = "start" /\ post.err # NoErr), "status_transition")
+     \* send() on a done / failed / stopped interpreter changes nothing and runs nothing
+     \cup Tag((step.op \in {"send", "batch"} /\ pre.status \in {"done", "error", "stopped"}) =>
+                (SameObservable(pre, post) /\ post.output = pre.output /\ quiet), "send_after_end")
+     \* start() while running / done / failed is a no-op; on a stopped interpreter it refuses with a library error
+     \cup Tag((step.op = "start" /\ pre.status \in {"running", "done", "error"}) =>
+                (SameObservable(pre, post) /\ quiet /\ post.err = NoErr), "start_idempotent")
+     \cup Tag((step.op = "start" /\ pre.status = "stopped") =>
+                (SameObservable(pre, post) /\ quiet /\ post.err # NoErr /\ post.err[1] = "InvalidConfigError"),
+              "restart_refused")
+     \* stop(): from any status, idempotent
+     \cup Tag(step.op = "stop" => (post.status = IF pre.status = "uninitialized" THEN "uninitialized" ELSE "stopped")
+                                 /\ post.config = pre.config /\ post.err = NoErr, "stop")
+     \cup Tag((step.op = "stop" /\ pre.status \in {"stopped", "uninitialized"}) => out = <<>>, "stop_idempotent")
+
 =============================================================================
